@@ -303,6 +303,28 @@ func (db *RefDB) Write(dbPath string, enc encoders.Type, level int) error {
 	return nil
 }
 
+// WriteMixed materialises the database with the production writer, drawing the encoder of every
+// write-out from {lz4, zstd, null} (a database whose compression setting was changed while it was
+// being written: a day then holds blocks of several encoders). It returns the number of blocks written
+// with an encoder different from their predecessor in the same day.
+func (db *RefDB) WriteMixed(dbPath string, r *rand.Rand) (switches int, err error) {
+	encs := []encoders.Type{encoders.EncoderTypeLZ4, encoders.EncoderTypeZSTD, encoders.EncoderTypeNull, encoders.EncoderTypeLZ4, encoders.EncoderTypeZSTD}
+	for _, id := range db.Ifaces {
+		last := map[int64]encoders.Type{}
+		for _, b := range id.Blocks {
+			enc := encs[r.Intn(len(encs))]
+			if prev, ok := last[DayStart(b.TS)]; ok && prev != enc {
+				switches++
+			}
+			last[DayStart(b.TS)] = enc
+			if err := WriteBlock(dbPath, id.Name, b, enc, 0); err != nil {
+				return switches, fmt.Errorf("iface %s ts %d: %w", id.Name, b.TS, err)
+			}
+		}
+	}
+	return switches, nil
+}
+
 // Iface returns the data of one interface (nil if absent).
 func (db *RefDB) Iface(name string) *IfaceData {
 	for i := range db.Ifaces {
